@@ -564,6 +564,19 @@ impl Svc {
         ));
       }
     }
+    // every diagnostic of the module: its location and the reference locations of its IDE rendering
+    let sources: HashMap<ModuleReference, String> = self.texts.clone();
+    let mut diag_items = Vec::new();
+    for e in self.state.get_errors(&m).iter().take(40) {
+      let ide = e.to_ide_format(&self.state.heap, &sources);
+      let refs: Vec<String> = ide.reference_locs.iter().map(|l| self.loc_str(l)).collect();
+      diag_items.push(format!(
+        "diag@{}={}",
+        span(&e.location),
+        std::iter::once(self.loc_str(&ide.location)).chain(refs).collect::<Vec<_>>().join(",")
+      ));
+    }
+    items.extend(diag_items);
     // rename at (a sample of) local identifiers: the rewritten module must still parse
     let mut renamed = 0;
     for (pos, _, local) in &idents {
@@ -571,14 +584,28 @@ impl Svc {
         continue;
       }
       renamed += 1;
+      // The LSP layer turns the result into ONE TextEdit over the constant ENTIRE_DOCUMENT_RANGE
+      // (samlang-cli main.rs `rename`), so there are no derived edit ranges; what can be checked is the
+      // new text: it parses, and the new name occurs exactly once per reference of the renamed variable.
+      let nrefs = samlang_services::query::all_references(&self.state, &m, *pos).len();
       let r = samlang_services::rewrite::rename(&mut self.state, &m, *pos, "renamedByVerif");
       let verdict = match r {
-        None => "none",
+        None => "none".to_string(),
         Some(t) => {
           let mut h = Heap::new();
           let mut es = ErrorSet::new();
           let _ = samlang_parser::parse_source_module_from_text(&t, ModuleReference::DUMMY, &mut h, &mut es);
-          if es.has_errors() { "syn" } else { "ok" }
+          if es.has_errors() {
+            "syn".to_string()
+          } else {
+            let mut h2 = Heap::new();
+            let mut es2 = ErrorSet::new();
+            let n = samlang_parser::verif_hooks::produce_tokens(&t, ModuleReference::DUMMY, &mut h2, &mut es2)
+              .iter()
+              .filter(|(k, text, _)| *k == "lower" && text == "renamedByVerif")
+              .count();
+            format!("ok:{n}:{nrefs}")
+          }
         }
       };
       items.push(format!("rename@{}.{}={verdict}", pos.0, pos.1));
